@@ -529,15 +529,16 @@ class JSFunction:
 def from_python(value: Any, none: Any = UNDEFINED) -> JSValue:
     """Convert a value returned by a host (Python) function into a JavaScript value.
 
-    None becomes `none`; lists, tuples and dicts become arrays and objects
-    (recursively, shared and cyclic structures keep their shape); everything
-    else is passed through.
+    None becomes `none` (null inside a container); lists, tuples and dicts become
+    arrays and objects (recursively, shared and cyclic structures keep their
+    shape); JavaScript values and callables are passed through; anything else
+    has no JavaScript counterpart and becomes undefined.
     """
     memo: Dict[int, JSValue] = {}
 
-    def convert(v: Any) -> JSValue:
+    def convert(v: Any, nested: bool = True) -> JSValue:
         if v is None:
-            return none
+            return NULL if nested else none
         if isinstance(v, (list, tuple)):
             if id(v) in memo:
                 return memo[id(v)]
@@ -553,9 +554,16 @@ def from_python(value: Any, none: Any = UNDEFINED) -> JSValue:
             for key, item in v.items():
                 obj.set(str(key), convert(item))
             return obj
-        return v
+        if (
+            isinstance(v, (bool, int, float, str, JSObject, JSFunction))
+            or v is UNDEFINED
+            or v is NULL
+            or callable(v)
+        ):
+            return v
+        return UNDEFINED
 
-    return convert(value)
+    return convert(value, nested=False)
 
 
 class JSRegExp(JSObject):
